@@ -343,6 +343,10 @@ func facts() []program {
 		{Name: "go/args-order-and-capture", Src: "log = make(chan int64, 8)\nout = make(chan interface, 1)\nfunc p(i) { log <- i; return i }\ngo func(a, b) { out <- [a, b] }(p(1), p(2))\nlog <- 9\nr = <-out\n[<-log, <-log, <-log, r]", Expect: render([]interface{}{int64(1), int64(2), int64(9), []interface{}{int64(1), int64(2)}}), Bound: -1},
 		{Name: "go/five-params-reflect-path", Src: "out = make(chan interface, 1)\nx = 1\ngo func(a, b, c, d, e) { out <- [a, e] }(x, 0, 0, 0, x + 1)\nx = 5\n<-out", Expect: render([]interface{}{int64(1), int64(2)}), Bound: -1},
 		{Name: "go/variadic", Src: "out = make(chan interface, 1)\nx = 1\ngo func(a, b...) { out <- [a, b] }(x, x + 1, x + 2)\nx = 5\n<-out", Expect: render([]interface{}{int64(1), []interface{}{int64(2), int64(3)}}), Bound: -1},
+		// ... also when an argument is read from a TYPED slot and the slot is stored to right after the go statement
+		{Name: "go/args-from-typed-slot", Src: "out = make(chan interface, 1)\nxs = make([]int64, 1)\ngo func(a) { out <- a }(xs[0])\nxs[0] = 99\n<-out", Expect: render(int64(0)), Bound: -1},
+		{Name: "go/args-from-typed-slot-reflect-path", Src: "out = make(chan interface, 1)\nxs = make([]int64, 2)\ngo func(a, b, c, d, e) { out <- [a, e] }(xs[0], 0, 0, 0, xs[1])\nxs[0] = 99\nxs[1] = 98\n<-out", Expect: render([]interface{}{int64(0), int64(0)}), Bound: -1},
+		{Name: "go/args-from-struct-field", Src: "out = make(chan interface, 1)\nst = make(struct { A int64 })\nst.A = 5\nfunc f(a) { out <- a }\ngo f(st.A)\nst.A = 6\n<-out", Expect: render(int64(5)), Bound: -1},
 		{Name: "go/runs-concurrently", Src: "a = make(chan int64)\nb = make(chan int64)\ngo func() { a <- 1; v, ok = <-a; b <- v + 1 }()\nx = <-a\na <- x + 10\n<-b", Expect: render(int64(12)), Bound: -1},
 	}
 }
